@@ -41,13 +41,26 @@ def ascLexAll (encF : SwcText.Sci → Int) (s : List Char) : List LexToken × Bo
 /-- a `Token` as the parser sees it (`lineno` / `column` only occur in error messages) -/
 def LexToken.toToken (t : LexToken) : Token := ⟨t.type, t.value⟩
 
-/-- `NeurolucidaAscToSwc.from_stream` on a text: the generated lexer run to the end of the stream, then the generated parser and walk.
-(The real parser pulls tokens on demand, so a `float()` failure BEHIND the last token the parser reads goes unnoticed; this eager
-composition is only used / stated for texts on which the lexer does not raise.) -/
+/-- the conversion when the lexer RAISES after having yielded `toks`: the real parser pulls tokens on demand, so it sees the failure iff it
+asks for a token beyond `toks`, i.e. iff some `_read_token` runs with no token left.  On the token-list reading of `Parser.lexer` such a
+`_read_token` sets `next_token = None`, and it stays `None` from then on (every later `_read_token` finds the list empty too): the real run
+raised iff `next_token` is `None` at the end (or the list run itself raised); otherwise no call ever reached the end and the two runs coincide. -/
+def ascConvertPrefix (toks : List Token) :
+    Option (Int × List Int × List Int × List Py.Atom × List Py.Atom × List Py.Atom × List Py.Atom × List Int) :=
+  match parser_read_token { lexer := toks, next_token := none, nodes := [] } with
+  | none => none
+  | some (p0, _) =>
+    match parser_parse (ascParseFuel toks) p0 with
+    | none => none
+    | some (p1, root) => if p1.next_token.isNone then none else from_ast (ascWalkFuel p1.nodes) p1.nodes root
+
+/-- `NeurolucidaAscToSwc.from_stream` on a text: the generated lexer run to the end of the stream (or to the word `float()` rejects), then
+the generated parser and walk.  PROVED equal to `Asc.convert` when the lexer does not raise (`C15.generated_text_convert_eq_model`); the
+other branch (a lexer failure that the on-demand parser may or may not reach) is executed against the real code only. -/
 def ascConvertText (encF : SwcText.Sci → Int) (s : List Char) :=
   match ascLexAll encF s with
   | (toks, true) => ascConvert (toks.map LexToken.toToken)
-  | (_, false) => none
+  | (toks, false) => ascConvertPrefix (toks.map LexToken.toToken)
 
 /-- driver payload of a number: (mantissa, sign, exponent) packed into one integer (exponents beyond ±2^63 are outside the suite) -/
 def encSciDrv (v : SwcText.Sci) : Int :=
